@@ -2,6 +2,7 @@ import Operon.Model.Proto
 import Operon.Model.Mito
 import Operon.Model.MitoWork
 import Operon.Model.MitoBox
+import Operon.Model.MitoText
 import Operon.Model.MitoSpec
 /-!
   Line-protocol driver shared by C01 and C02 (`Drv/C01.lean`, `Drv/C02.lean` only call `Mito.main`).
@@ -295,6 +296,8 @@ structure DSt where
   maxRos : Float := 1.0
   /-- E1 facts about the result containers (three more tokens of the `cfg` line) -/
   box : Box := ⟨true, true, true⟩
+  /-- E1 fact about the TEXT (a fourth extra token of the `cfg` line): the readers are handed the caller's string -/
+  pre : PreKind := .identity
   /-- C01 only: `met` / `dg` observations carry the number of walker invocations (`v=…`, see `Model/MitoWork.lean`) -/
   showWork : Bool := false
   /-- C02: the `valueKept` fact decides whether the model vouches for a delivered value.  C01's driver leaves it aside —
@@ -369,9 +372,13 @@ def step (st : DSt) (toks : List String) : DSt × String :=
   | "cfg" :: seed :: silent :: rn :: rd :: tz :: pit :: dit :: maxLen :: allowed :: rest =>
     let al := if allowed = "none" then none else some (splitComma allowed)
     let sg := match rest with | x :: _ => boolOf x | _ => true
-    let box : Box := match rest with | [_, a, b, c] => ⟨boolOf a, boolOf b, boolOf c⟩ | _ => ⟨true, true, true⟩
+    let box : Box := match rest with
+      | [_, a, b, c] => ⟨boolOf a, boolOf b, boolOf c⟩
+      | [_, a, b, c, _] => ⟨boolOf a, boolOf b, boolOf c⟩
+      | _ => ⟨true, true, true⟩
+    let pre : PreKind := match rest with | [_, _, _, _, d] => (if boolOf d then .identity else .rewrites) | _ => .identity
     ({ st with seed := natD seed, ros := 0.0, maxRos := Float.ofNat (natD rn) / Float.ofNat (natD rd 1),
-               toolsLower := [], toolMeta := [], box := box,
+               toolsLower := [], toolMeta := [], box := box, pre := pre,
                cfg := ⟨natD maxLen, boolOf silent, boolOf tz, [], al, boolOf pit, boolOf dit, sg⟩ }, "ok")
   | ["tool", hn, hl, caps] => (regTool st hn hl caps "s0", "ok")
   | ["tool", hn, hl, caps, beh] => (regTool st hn hl caps beh, "ok")
@@ -417,6 +424,9 @@ def step (st : DSt) (toks : List String) : DSt × String :=
       -- what the caller sees: the engine's outcome through the result containers
       let box : Box := if st.valueFacts then st.box else { st.box with valueKept := true }
       let (tr, out) := metabolizeD st.T (envOf st) st.cfg box latched d inp (pathwayOfName forced)
+      -- an entry point that rewrites the text before its readers see it: the tokens of this line are CPython's reading of
+      -- the caller's text, not of what the engine read — the model does not vouch for a value (C02's driver only)
+      let out := if st.valueFacts && st.pre != .identity then veil out else out
       let ros' := match out with
         | .result _ _ true _ => st.ros + 0.1
         | _ => st.ros
